@@ -7,6 +7,9 @@ use std::collections::HashMap;
 use std::fs::File;
 use std::io::{BufRead, BufWriter, Write};
 use std::sync::Arc;
+#[cfg(kmertools_verif)]
+use ktio::verif::sync::Mutex;
+#[cfg(not(kmertools_verif))]
 use std::sync::Mutex;
 
 const NUMBER_SIZE: usize = 8;
@@ -182,6 +185,8 @@ impl OligoComputer {
             .unwrap();
         let records_arc = Arc::new(Mutex::new(records));
 
+        #[cfg(kmertools_verif)]
+        ktio::verif::scope_begin("oligo.mmap", self.threads, self.threads);
         pool.scope(|scope| {
             let mm_slice: MMWriter<u8> = MMWriter::new(&mut mmap[..]);
             if self.header {
@@ -193,9 +198,13 @@ impl OligoComputer {
                 let records_arc_clone = Arc::clone(&records_arc);
                 let header_len = header.len();
                 scope.spawn(move |_| {
+                    #[cfg(kmertools_verif)]
+                    ktio::verif::point("task.start", 0);
                     loop {
                         let record = { records_arc_clone.lock().unwrap().next() };
                         if let Some(record) = record {
+                            #[cfg(kmertools_verif)]
+                            ktio::verif::point("oligo.took", record.n as u64);
                             let kvec = self.vectorise_one(&record.seq);
                             // optimise this with pre-sized string
                             let kvec_str: Vec<String> = kvec
@@ -212,6 +221,8 @@ impl OligoComputer {
                             break;
                         }
                     }
+                    #[cfg(kmertools_verif)]
+                    ktio::verif::point("task.exit", 0);
                 });
             }
         });
@@ -237,6 +248,26 @@ impl OligoComputer {
             vec.iter_mut().for_each(|el| *el /= f64::max(1_f64, total));
         }
         vec
+    }
+}
+
+/// Public routes to the private routines for the verification harness.
+#[cfg(kmertools_verif)]
+impl OligoComputer {
+    pub fn verif_vectorise_mmap(&self) -> Result<(), String> {
+        self.vectorise_mmap()
+    }
+
+    pub fn verif_vectorise_batch(&self) -> Result<(), String> {
+        self.vectorise_batch()
+    }
+
+    pub fn verif_vectorise_one(&self, seq: &[u8]) -> Vec<f64> {
+        self.vectorise_one(seq)
+    }
+
+    pub fn verif_get_header(&self) -> Vec<String> {
+        self.get_header()
     }
 }
 
